@@ -559,3 +559,29 @@ def residuals_as_written(spec, get, t, variant=None, which="transition"):
         out.append(lhs - rhs)
         mag = max(mag, abs(lhs), abs(rhs) if not math.isnan(rhs) else 0.0)
     return out, mag
+
+
+def unit_root_domain(spec, n_unit, variant=None, band=0.1):
+    """True iff the own eigenvalues have exactly n_unit roots at 1 (to 1e-8), no other root within `band`
+    of the unit circle, and the number of roots outside equals the number of leads."""
+    ev = eigenvalues(spec, variant)
+    mags = sorted(abs(x) for x in ev)
+    units = [m for m in mags if abs(m - 1) < 1e-8]
+    rest = [m for m in mags if abs(m - 1) >= 1e-8]
+    if len(units) != n_unit:
+        return False
+    if any(1 - band < m < 1 + band for m in rest):
+        return False
+    return sum(1 for m in rest if m > 1) == num_forwards(spec)
+
+
+@st.composite
+def growth_spec_strategy(draw, log=True, **kwargs):
+    """Spec with one exact random walk with drift (variable index returned as spec['rw'])."""
+    kwargs.setdefault("allow_params", False)
+    spec = draw(spec_strategy(allow_log=True, **kwargs))
+    spec["log"] = log
+    rw = draw(st.integers(0, spec["n"] - 1))
+    spec["eqs"][rw] = {"terms": [[rw, -1, 1.0]], "const": draw(st.sampled_from([0.02, -0.01, 0.05])), "shock": 1.0}
+    spec["rw"] = rw
+    return spec
